@@ -519,6 +519,8 @@ def run(ctx, chk, tier="quick"):
     )
     chk.assumptions = ["epochs are integers below 2^53: int<->float64 conversion, +, - and comparisons are exact",
                        "floating-point operations on origin-free values are identical in shifted runs"]
+    from .c11 import shifted_truncations
+    shifted_truncations(ctx, chk, "C07.O1", ("load", "classify", "rise", "recession"), "origin")
     an = Analyzer(ctx, chk)
     analysed = 0
     # the modules named above, plus any module of the package that they import (a helper moved out of them)
